@@ -21,6 +21,7 @@ CHECKS["C06"] = {
     "subs": [
         _sub("TestC06_Diff", 4000, 160000, sq=12, st=12),
         _sub("TestC06_NoKey", 1200, 40000, sq=4, st=4),
+        _sub("TestC06_Twins", 1000, 40000, sq=4, st=4),
     ],
 }
 
